@@ -1,0 +1,6 @@
+//go:build !verif
+
+package util
+
+// verifKillPoint does nothing unless built with the "verif" tag (see files_verif.go)
+func verifKillPoint(string, string) {}
